@@ -1961,7 +1961,22 @@ class _Builder:
         if op(t) == "call" and op(t[1]) in ("ext", "builtin") and t[1][1] in ("collections.defaultdict", "defaultdict"):
             factory = t[2][0] if t[2] else NONE
             return ("new", "defaultdict", self.low.fresh(), line, factory)
+        if op(t) == "call" and t[1] in (("builtin", "set"), ("builtin", "list")) and len(t[2]) == 1 and not t[3] and getattr(self, "_assign_target", None) in self._mutated_locals():
+            # rv = set(xs) ... rv.add(..) / rv.discard(..): a container of its own, starting from the elements of xs
+            return ("new", t[1][1], self.low.fresh(), line, t)
         return t
+
+    def _mutated_locals(self) -> set:
+        """Local names of the current function on which a mutating container method is called."""
+        cache = self.__dict__.setdefault("_mut_cache", {})
+        key = id(self.fn.node)
+        if key not in cache:
+            names = set()
+            for n in ast.walk(self.fn.node):
+                if isinstance(n, ast.Call) and isinstance(n.func, ast.Attribute) and isinstance(n.func.value, ast.Name) and n.func.attr in ("add", "discard", "remove", "update", "difference_update", "append", "extend", "insert", "pop", "clear", "intersection_update", "symmetric_difference_update"):
+                    names.add(n.func.value.id)
+            cache[key] = names
+        return cache[key]
 
     def assign(self, target: ast.expr, value: tuple, p: Path, line: int) -> None:
         if isinstance(target, ast.Name):
@@ -2012,7 +2027,11 @@ class _Builder:
         des = self._desugar_comp(st, raw, p)
         if des is not None:
             return des
-        v = self._new_or(st.value, raw, st.lineno)
+        self._assign_target = st.targets[0].id if len(st.targets) == 1 and isinstance(st.targets[0], ast.Name) else None
+        try:
+            v = self._new_or(st.value, raw, st.lineno)
+        finally:
+            self._assign_target = None
         for t in st.targets:
             self.assign(t, v, p, st.lineno)
         return [p]
